@@ -72,6 +72,11 @@ FUNC_PRIMS = {
     "json.loads": {"ValueError"}, "json.dumps": {"TypeError", "ValueError"},
     "ipaddress.ip_address": {"ValueError"},
 }
+TS_MIN, TS_MAX = -62135596800 + 86400, 253402300799 - 86400   # datetime range minus a day
+STRUCT_RANGES = {"B": (0, 2 ** 8 - 1), "b": (-2 ** 7, 2 ** 7 - 1), "H": (0, 2 ** 16 - 1),
+                 "h": (-2 ** 15, 2 ** 15 - 1), "I": (0, 2 ** 32 - 1), "L": (0, 2 ** 32 - 1),
+                 "i": (-2 ** 31, 2 ** 31 - 1), "l": (-2 ** 31, 2 ** 31 - 1),
+                 "Q": (0, 2 ** 64 - 1), "q": (-2 ** 63, 2 ** 63 - 1)}
 USER_CALLBACKS = {"handle_request", "handle_answer", "_request_handler",
                   "peer_route_select_func"}
 NORAISE_PREFIXES = ("self.logger.", "logger.", "self.connection_logger.",
@@ -113,6 +118,7 @@ class Effects:
                         self.exc_classes[c.name] = bn
                         changed = True
         self.trace: dict[int, dict[str, tuple]] = {}   # func id -> exc -> (where, via)
+        self.suppressed: list[tuple] = []
         self.iterations = 0
         self._solve()
 
@@ -380,6 +386,12 @@ class Effects:
         full = self._qual_external(fn, f)
         if full in FUNC_PRIMS:
             r = set(FUNC_PRIMS[full])
+            if full.endswith("fromtimestamp") and c.args:
+                iv = self.interval(c.args[0], f)
+                if iv is not None and TS_MIN <= iv[0] and iv[1] <= TS_MAX:
+                    self.suppressed.append(
+                        (f"{f.module.relpath}:{c.lineno}", f.qualname, full, iv))
+                    return set()
             self._note(f, c, r, f"{full}(...)")
             return r
         # name call
@@ -529,6 +541,42 @@ class Effects:
                         out |= r
                         self._note(f, c, r, f"constructs {ci.name} via `{name}` ({g.qualname})", g)
         return out
+
+    def interval(self, e: ast.expr, f: FuncInfo, depth: int = 4):
+        """[lo, hi] of an integer expression built from struct.unpack results,
+        folded constants and + / -; None when unknown."""
+        if depth < 0:
+            return None
+        v = self.model.try_fold(e, f.module, f.cls, default=None)
+        if isinstance(v, int) and not isinstance(v, bool):
+            return (v, v)
+        if isinstance(e, ast.Name):
+            defs = [n for n in A.walk_no_nested(f.node)
+                    if isinstance(n, (ast.Assign, ast.AnnAssign)) and getattr(n, "value", None) is not None
+                    and any(isinstance(t, ast.Name) and t.id == e.id for t in A.store_targets(n))]
+            augs = [n for n in A.walk_no_nested(f.node) if isinstance(n, ast.AugAssign)
+                    and isinstance(n.target, ast.Name) and n.target.id == e.id]
+            if len(defs) == 1 and not augs:
+                return self.interval(defs[0].value, f, depth - 1)
+            return None
+        if isinstance(e, ast.Subscript) and isinstance(e.value, ast.Call) \
+                and self._qual_external(e.value.func, f) == "struct.unpack" and e.value.args:
+            fmt = self.model.try_fold(e.value.args[0], f.module, f.cls)
+            idx = self.model.try_fold(e.slice, f.module, f.cls)
+            if isinstance(fmt, str) and idx == 0:
+                codes = fmt.lstrip("!><=@")
+                if len(codes) == 1 and codes in STRUCT_RANGES:
+                    return STRUCT_RANGES[codes]
+            return None
+        if isinstance(e, ast.BinOp) and isinstance(e.op, (ast.Add, ast.Sub)):
+            a = self.interval(e.left, f, depth - 1)
+            b = self.interval(e.right, f, depth - 1)
+            if a is None or b is None:
+                return None
+            if isinstance(e.op, ast.Add):
+                return (a[0] + b[0], a[1] + b[1])
+            return (a[0] - b[1], a[1] - b[0])
+        return None
 
     def _queue_raises(self, meth: str, c: ast.Call) -> set[str]:
         blocking = True
